@@ -9,7 +9,8 @@ EXPLANATION = ("R19.1 error discipline over every call in the crate that returns
                "rotation attempt is reported and the record is still written once to the old file; R19.3 the old writer stays until the new file is "
                "open; R19.4 initialisation changes `inner` only after every fallible step succeeded (a failed start is retried with the original "
                "configuration at the next write); R19.5 in FlexiLogger::log every writer result ends in a reporting closure; R19.6 no unwrap/expect "
-               "on the result of a file-system or thread operation outside the triaged table. R19.3 also: with Naming::Numbers the stored index is the result of index_for_rcurrent on every path once the rename succeeded.")
+               "on the result of a file-system or thread operation outside the triaged table. R19.3 also: with Naming::Numbers the stored index is the result of index_for_rcurrent on every path once the rename succeeded."
+               " R19.7 error channel: try_writing_to_error_channel writes the report to stderr / stdout / the configured file (create+append) / nowhere per ErrorChannel kind; eprint_err / eprint_msg pass message and cause on exactly once; the channel installed at start is the builder's field. R19.8 (shared with R07.2): in the compression chain a failing step keeps the original and is propagated; the encoder's sink cannot swallow a failing write.")
 ASSUMPTIONS = ["util::eprint_err / eprint_msg deliver to the configured error channel (its own failures are handled by handle_error_error)",
                "failures of custom writers are user code"]
 NOT_DECIDED = ["which records are lost under which fault sequence", "recovery after faults that leave the directory in a state no rule describes"]
